@@ -102,6 +102,16 @@ func c02Run(p framePlan) *common.Fail {
 			if !common.SameValue(v1, v2) {
 				return common.Failf("relay-changes-value", "%s/%s: decode(ref)=%s\n after re-encoding %s\n ref=%x re=%x", p.Kind, p.CemiKind, common.Show(v1), common.Show(v2), ref, re)
 			}
+			// the relay keeps v1 while its receive buffer is reused for the next datagram (the library's own
+			// UDP receiver decodes every datagram out of one buffer): the telegram must not change with it
+			before := common.Show(v1)
+			for i := range ref {
+				ref[i] ^= 0xa5
+			}
+			if after := common.Show(v1); after != before || !bytes.Equal(knxnet.AllocAndPack(pk), re) {
+				return common.Failf("decoded-value-aliases-input", "%s/%s: the decoded value changes when the buffer it was decoded from is overwritten: was %s\n now %s\n first re-encoding %x\n now %x",
+					p.Kind, p.CemiKind, before, after, re, knxnet.AllocAndPack(pk))
+			}
 		}
 	}
 	return nil
